@@ -1816,6 +1816,10 @@ func (a *algo) translate(key string) {
 		a.translateCtor(key)
 		return
 	}
+	if isWrapTarget(key) {
+		a.translateWrap(key)
+		return
+	}
 	env := aenv{}
 	var params []string
 	if d.Recv != nil && len(d.Recv.List) == 1 {
@@ -1950,7 +1954,9 @@ var algoTargets = []string{".IsReservedWord", "File.isLocal", "File.isValidAlias
 	// the render methods of Statement and Group (algo_render.go)
 	"Statement.render", "Group.renderItems", "Group.render", "Dict.render", "token.render",
 	// the entry points, with the environment as a parameter (algo_effect.go)
-	"File.Render", "Statement.RenderWithFile", "Group.RenderWithFile", "File.Save"}
+	"File.Render", "Statement.RenderWithFile", "Group.RenderWithFile", "File.Save",
+	// wrappers of the entry points (algo_wrap.go)
+	"Statement.Render", "Group.Render", "Statement.GoString", "Group.GoString", "File.GoString"}
 
 func translateAlgorithms(fns []fn, reservedVar, stdVar string) (lean string, summary string) {
 	a := &algo{fns: map[string]*ast.FuncDecl{}, reservedVar: reservedVar, stdVar: stdVar, mutates: map[string]bool{}, needsFuel: map[string]bool{}, needsLib: map[string]bool{}, needsRec: map[string]bool{},
